@@ -21,9 +21,10 @@ func init() {
 		ID:    "C05",
 		Level: "model_checking",
 		Rule: "history tree of all sequences of <=2 operations over all 32 property layouts (a,b in {absent,value,function,method}; _missing in {absent,method}) and of <=3 operations over 8 layouts " +
-			"(thorough: <=3 over 16 layouts, <=4 over 4) where an operation is `v := {L}`, `v := 1.bear({L})`, `v := \"s\".bear({L})`, `v := vJ.bear({L})`, `v := vJ.bro({L})`, or takes the own properties of an existing object: `v := vJ.bear(vK)`, `v := vJ.bro(vK)`, `v := Obj.bear(vK)`; in every final state every object is probed with " +
+			"(thorough: <=3 over 16 layouts, <=4 over 4) where an operation is `v := {L}`, `v := 1.bear({L})`, `v := \"s\".bear({L})`, `v := [3, 4].bear({L})`, `v := vJ.bear({L})`, `v := vJ.bro({L})`, or takes the own properties of an existing object: `v := vJ.bear(vK)`, `v := vJ.bro(vK)`, `v := Obj.bear(vK)`; in every final state every object is probed with " +
 			"(plus two further families: a property shadowing the built-in S with a non-callable _missing, and objects identified only by a private `_id` so that same-layout objects have identical public properties) " +
 			"every forest of <=2 (thorough 3) objects is probed a second time after 10 operations per object that only read it (merging literals, ** into calls/maps, digest, chain digest, bear/bro, listing, comparing, printing, patch, del); " +
+			"chains of n bears for 20 lengths n up to 200 (a name owned by the far end, the far _missing, proto/ancestors/which/kindOf?); " +
 			"o.n, o.n(9), o['n], which for n in {a,b,c}, proto, ancestors, keys, keys(private?), kindOf? against every object; states = forests, transitions = operations; " +
 			"non-trivial = forest with inheritance (at least one bear/bro); distinct = distinct operation sequence",
 		Assumptions: []string{
@@ -120,6 +121,8 @@ func (t tcase) parent(k int) int {
 		return -2
 	case "str":
 		return -3
+	case "arr":
+		return -4
 	case "bear":
 		return o.Of
 	case "bro", "broof":
@@ -206,6 +209,8 @@ func (t tcase) defs() string {
 			fmt.Fprintf(&sb, "v%d := 1.bear(%s)\n", k, l)
 		case "str":
 			fmt.Fprintf(&sb, "v%d := \"s\".bear(%s)\n", k, l)
+		case "arr":
+			fmt.Fprintf(&sb, "v%d := [3, 4].bear(%s)\n", k, l)
 		case "bear":
 			fmt.Fprintf(&sb, "v%d := v%d.bear(%s)\n", k, o.Of, l)
 		case "bro":
@@ -304,6 +309,8 @@ func (t tcase) probes() []probe {
 			ps = append(ps, probe{src: v + ".proto == Obj", want: "true", what: "proto"})
 		case p == -2:
 			ps = append(ps, probe{src: v + ".proto == 1", want: "true", what: "proto"})
+		case p == -4:
+			ps = append(ps, probe{src: v + ".proto == [3, 4]", want: "true", what: "proto"})
 		case p == -3:
 			ps = append(ps, probe{src: v + `.proto == "s"`, want: "true", what: "proto"})
 		}
@@ -365,7 +372,7 @@ func (t tcase) probes() []probe {
 			}
 			ps = append(ps, probe{src: fmt.Sprintf("%s.kindOf?(v%d)", v, j), want: fmt.Sprint(in), what: "kindOf"})
 		}
-		rootName := map[int]string{-1: "Obj", -2: "Int", -3: "Str"}[t.root(k)]
+		rootName := map[int]string{-1: "Obj", -2: "Int", -3: "Str", -4: "Arr"}[t.root(k)]
 		ps = append(ps, probe{src: v + ".kindOf?(" + rootName + ")", want: "true", what: "kindOf-builtin"})
 		ps = append(ps, probe{src: v + ".kindOf?(BaseObj)", want: "true", what: "kindOf-builtin"})
 	}
@@ -484,6 +491,7 @@ func gen(depth int, ls []odef, emit func(tcase)) {
 			if len(objs) == 0 && l.S == 0 {
 				with("int", 0)
 				with("str", 0)
+				with("arr", 0)
 			}
 			for j := range objs {
 				with("bear", j)
@@ -561,7 +569,53 @@ func judgeRaise(c *core.Ctx, t tcase, p probe, o panrun.Obs) {
 	}
 }
 
+// ---------------------------------------------------------------- long chains
+
+var deepLens = []int{1, 2, 3, 30, 59, 60, 61, 62, 63, 64, 65, 66, 67, 70, 100, 127, 128, 129, 150, 200}
+
+func deepSrc(n int) string {
+	return fmt.Sprintf("root := {id: 0, a: 1, _missing: m{|n| ['miss, n]}}\ndeep := (0:%d)$(root){|acc, i| acc.bear({lvl: i})}\n"+
+		"[deep.a, deep.zz, deep['a], deep.which('a)['id], deep.ancestors.len, deep.kindOf?(root), deep.proto['lvl], deep.lvl, deep.keys, deep.bear({}).a, deep.which('keys) == Obj, deep.which('bear) == BaseObj, deep.which('zz)]", n)
+}
+
+func deepWant(n int) string {
+	pl := fmt.Sprint(n - 2)
+	if n == 1 {
+		pl = "nil"
+	}
+	return fmt.Sprintf(`[1, ["miss", "zz"], 1, 0, %d, true, %s, %d, ["lvl"], 1, true, true, nil]`, n+2, pl, n-1)
+}
+
+// runDeep: a name owned by the far end of a chain of n bears (n up to 200) is found, missing names reach the far
+// _missing, and proto / ancestors / which / kindOf? agree, for every length of a list around powers of two.
+func runDeep(c *core.Ctx) {
+	tk.Batched(c, 4, "", func(emit func(int)) {
+		for _, n := range deepLens {
+			emit(n)
+		}
+	}, deepSrc, func(n int, o panrun.Obs) {
+		c.Validated(1)
+		c.Nontrivial(1)
+		c.State(1)
+		c.Transition(n)
+		if o.Kind == "syntax" {
+			c.HarnessError("deep chain program does not parse: %s", o.ErrMsg)
+			return
+		}
+		c.Outcome("deep:" + o.Kind)
+		if o.Kind == "discard" {
+			c.Discard(1) // the harness's recursion guard cut the evaluation (the walk is recursive)
+			return
+		}
+		if o.Kind != "value" || o.Repr != deepWant(n) {
+			c.Violation(core.Violation{Key: "long-chain/lookup-through-many-prototypes", Case: core.JSON(map[string]int{"deep": n}), Desc: strings.ReplaceAll(deepSrc(n), "\n", "; "), Expected: deepWant(n), Observed: o.Short(),
+				Repro: deepSrc(n) + ".p\n"})
+		}
+	})
+}
+
 func run(c *core.Ctx) {
+	runDeep(c)
 	type plan struct {
 		depth int
 		set   string
@@ -611,6 +665,17 @@ func run(c *core.Ctx) {
 }
 
 func replay(c *core.Ctx, raw json.RawMessage) {
+	var dp struct {
+		Deep int `json:"deep"`
+	}
+	if json.Unmarshal(raw, &dp) == nil && dp.Deep > 0 {
+		obs := c.R().Thunks("", []string{deepSrc(dp.Deep)}, "")
+		c.Eval(1)
+		if obs[0].Kind != "value" || obs[0].Repr != deepWant(dp.Deep) {
+			c.Violation(core.Violation{Key: "long-chain/lookup-through-many-prototypes", Case: raw, Desc: deepSrc(dp.Deep), Expected: deepWant(dp.Deep), Observed: obs[0].Short()})
+		}
+		return
+	}
 	var t tcase
 	if err := json.Unmarshal(raw, &t); err != nil {
 		c.HarnessError("bad case: %v", err)
